@@ -467,9 +467,9 @@ func dispatch(e *env, c Case, a, b, cc string) string {
 		_ = ok
 		return classify(true, err)
 	case "BLSReconstructThresholdSignature":
-		const n, t = 5, 2
+		const n, t = 9, 2
 		sks, _, _, _ := crypto.BLSThresholdKeyGen(n, t, make([]byte, 32))
-		cnt := map[string]int{"none": 0, "t": t, "t+1": t + 1, "t+2": t + 2}[a]
+		cnt := map[string]int{"none": 0, "t": t, "t+1": t + 1, "t+2": t + 2, "t+3": t + 3, "2t+2": 2*t + 2, "n": n}[a]
 		var shares []crypto.Signature
 		var signers []int
 		for i := 0; i < cnt; i++ {
